@@ -52,7 +52,7 @@ class CFG:
                 if s is None:
                     continue
                 label = None
-                if len(succs) == 2 and tk not in ('SwitchStmt', 'CXXTryStmt', None) or (len(succs) == 2 and b.get('cond') is not None and tk != 'SwitchStmt'):
+                if len(succs) == 2 and b.get('cond') is not None and tk not in ('SwitchStmt', 'CXXTryStmt') and not b.get('tdtor'):
                     label = (bid, k == 0)
                 elif tk == 'SwitchStmt':
                     label = (bid, ('case', s))
